@@ -107,7 +107,94 @@ def extra(ctx):
             fails.append({"case": {"kind": "mark_request-model", "index": i}, "what": "WorkerCtx model and implementation differ", "signature": "c18:mark-request-model"})
         if err:
             fails.append({"case": {"kind": "mark_request-model"}, "what": err[-500:], "signature": "c18:mark-request-model-eval"})
+    # (4) the real worker_serve of both workers: the jitter is drawn from [0, max_requests_jitter], and serve() begins
+    #     its graceful exit right after request number max_requests + jitter + 1
+    for backend, mx, jit, pick in recycle_plan(ctx):
+        res = recycle_run(backend, mx, jit, pick)
+        n += 1
+        dist["worker_recycle"] = dist.get("worker_recycle", 0) + 1
+        case = {"kind": "worker-recycle", "backend": backend, "max_requests": mx, "jitter": jit, "pick": pick, **res}
+        if res["draws"] != [(0, jit)]:
+            fails.append({"case": case, "what": f"jitter drawn from {res['draws']}, expected one draw from (0, {jit})", "signature": "c18:jitter-range"})
+        elif res["served"] != mx + res["j"] + 1 or not res["returned"]:
+            fails.append({"case": case, "what": f"worker served {res['served']} requests (returned: {res['returned']}), expected to stop after "
+                                                f"{mx + res['j'] + 1} = max_requests + jitter + 1", "signature": "c18:worker-recycle"})
     return {"failures": fails, "count": n, "dist": dist}
+
+
+def recycle_plan(ctx):
+    rng = ctx.rng
+    plan = []
+    for backend in ("asyncio", "trio"):
+        for _ in range(ctx.scale(2, 8, 4)):
+            plan.append((backend, rng.choice([0, 1, 2, 3]), rng.choice([0, 1, 2, 4]), rng.choice([0, 1])))
+    return plan
+
+
+def recycle_run(backend, mx, jit, pick):
+    """Real serve() in a thread on a loopback port; randint of the worker's run module is replaced by a recorder that
+    returns the low or the high end of the range it is asked for."""
+    import importlib
+    import time
+
+    from . import c14 as L
+
+    mod = importlib.import_module(f"hypercorn.{backend}.run")
+    draws = []
+    orig = mod.randint
+
+    def fake_randint(lo, hi):
+        draws.append((lo, hi))
+        return lo if pick == 0 else hi
+
+    async def app(scope, receive, send):
+        if scope["type"] == "lifespan":
+            while True:
+                m = await receive()
+                if m["type"] == "lifespan.startup":
+                    await send({"type": "lifespan.startup.complete"})
+                elif m["type"] == "lifespan.shutdown":
+                    await send({"type": "lifespan.shutdown.complete"})
+                    return
+        await send({"type": "http.response.start", "status": 200, "headers": [(b"content-length", b"2")]})
+        await send({"type": "http.response.body", "body": b"ok"})
+
+    mod.randint = fake_randint
+    served = 0
+    try:
+        srv = L.Served(backend, app, max_requests=mx, max_requests_jitter=jit, graceful_timeout=1.0)
+        first = srv.wait_listening()
+        if first is not None:
+            first.close()
+        for _ in range(mx + max(jit, mx) + 4):
+            if srv.result["returned_at"] is not None:
+                break
+            s = srv.try_connect()
+            if s is None:
+                break
+            try:
+                r = L.get(s, b"/", close=True, timeout=2.0)
+            except Exception:  # noqa: BLE001
+                r = None
+            finally:
+                s.close()
+            if r is None or r[0] != 200:
+                break
+            served += 1
+            # mark_request -> terminate -> worker_serve closes the listeners: give it time exactly when it is due
+            due = bool(draws) and served >= mx + (draws[0][0] if pick == 0 else draws[0][1]) + 1
+            end = time.monotonic() + (3.0 if due else 0.03)
+            while srv.result["returned_at"] is None and time.monotonic() < end:
+                time.sleep(0.01)
+        end = time.monotonic() + 3.0
+        while srv.result["returned_at"] is None and time.monotonic() < end:
+            time.sleep(0.02)
+        returned = srv.result["returned_at"] is not None
+        if not returned:
+            srv.stop()
+    finally:
+        mod.randint = orig
+    return {"draws": draws, "j": (draws[0][0] if pick == 0 else draws[0][1]) if draws else None, "served": served, "returned": returned}
 
 
 def run(ctx):
